@@ -5,6 +5,7 @@ from __future__ import annotations
 from typing import (
     Any,
     Callable,
+    ContextManager,
     Dict,
     Iterable,
     Iterator,
@@ -495,25 +496,18 @@ def _activate_plugin_worlds() -> Iterator[None]:
         yield
 
 
+def _x64_scope(enabled: bool) -> ContextManager[None]:
+    """Scoped x64 setting that also wins over (and reinstates) an active ``jax.enable_x64`` override."""
+    scope = getattr(jax, "enable_x64", None)
+    if scope is None:
+        from jax.experimental import enable_x64 as scope
+    return cast(ContextManager[None], scope(bool(enabled)))
+
+
 @contextmanager
 def _force_jax_x64(enable_double_precision: bool) -> Iterator[None]:
-    read_config = jax.config.read if hasattr(jax.config, "read") else None
-    if callable(read_config):
-        previous = bool(read_config("jax_enable_x64"))
-    else:
-        previous = (
-            bool(jax.config.jax_enable_x64)
-            if hasattr(jax.config, "jax_enable_x64")
-            else False
-        )
-    target = bool(enable_double_precision)
-    if previous != target:
-        jax.config.update("jax_enable_x64", target)
-    try:
+    with _x64_scope(enable_double_precision):
         yield
-    finally:
-        if previous != target:
-            jax.config.update("jax_enable_x64", previous)
 
 
 def _create_ir_context(
